@@ -242,7 +242,43 @@ def r5_type_extension_order(ctx, rep):
                "an extended type imported by USE is found" if ok else "parent lookup precedes USE merging", py.nloc(fn))
 
 
+BLOCK_SCOPED_ARMS = ["ATTRIB_RE", "TYPE_RE", "INTERFACE_RE", "ENUM_RE", "VARIABLE_RE"]
+
+
+def r6_block_scope(ctx, rep):
+    """declarations inside a BLOCK construct are local to it: they must not be entered into the
+    enclosing procedure's lists (sibling agreement of the `blocklevel == 0` guard)."""
+    py, cs = ctx.py, ctx.cascade
+    for name in BLOCK_SCOPED_ARMS:
+        a = cs.arm_by_regex(name)
+        ok = any(r.replace(" ", "") == "blocklevel==0" for r in a.residual)
+        rep.ob(f"arm {name} is disabled inside BLOCK constructs", ok,
+               "guarded by blocklevel == 0" if ok else
+               f"the {name} arm no longer tests `blocklevel == 0` (its sibling declaration arms do): an entity declared "
+               f"inside a BLOCK construct is registered in the enclosing procedure and shadows the host-associated "
+               f"entity of the same name there", py.nloc(a.test))
+    b = cs.arm_by_regex("BLOCK_RE")
+    ok = "blocklevel" in b.writes and "blocklevel += 1" in ast.unparse(ast.Module(body=b.body, type_ignores=[]))
+    rep.ob("BLOCK opens a nesting level", ok, "", py.nloc(b.test))
+    e = cs.arm_by_regex("END_RE")
+    t = ast.unparse(ast.Module(body=e.body, type_ignores=[]))
+    ok = re.search(r"if endtype and endtype\.lower\(\) == 'block':\s+blocklevel -= 1", t) is not None
+    rep.ob("END BLOCK closes a nesting level", ok, "", py.nloc(e.test))
+    init = [s for s in cs.fn.body if isinstance(s, ast.Assign) and ast.unparse(s.targets[0]) == "blocklevel"]
+    ok = len(init) == 1 and ast.unparse(init[0].value) == "0"
+    rep.ob("nesting level starts at 0", ok, "", py.nloc(init[0]) if init else py.nloc(cs.fn))
+
+
+def r7_use_is_complete_when_read(ctx, rep):
+    """USE association copies the exporter's public tables at the time the importer is correlated:
+    the importer must be correlated after every module it uses at any nesting depth (shared with C06.R3)."""
+    from . import c06
+    c06.r3_dependency_order(ctx, rep)
+
+
 RULES = [
+    RuleSpec("C07.R6", r6_block_scope, "block-local declarations stay out of the enclosing scope", floor=8),
+    RuleSpec("C07.R7", r7_use_is_complete_when_read, "importers are correlated after their exporters (shared with C06.R3)", floor=11),
     RuleSpec("C07.R1", r1_alias_mutation, "a host's table is never mutated through an alias", floor=8),
     RuleSpec("C07.R2", r2_innermost_wins, "innermost declaration wins (write order per table)", floor=8),
     RuleSpec("C07.R3", r3_lower_keys, "case-insensitive keys", floor=25),
